@@ -373,10 +373,27 @@ class Parser:
 
     def parse(self, rule: str, call_invalid_rules: bool = False) -> ast.AST | Any | None:
         try:
-            return self._parse(rule, call_invalid_rules)
+            return self._utf8_columns(self._parse(rule, call_invalid_rules))
         except RecursionError:
             # the recursive-descent methods ran out of stack: report it like any other unparsable input
             self.raise_syntax_error("too many nested parentheses or expressions")
+
+    def _utf8_columns(self, tree: Any) -> Any:
+        """Token columns count characters; like CPython, AST columns count UTF-8 bytes."""
+        if not isinstance(tree, ast.AST):
+            return tree
+        nodes = {id(n): n for n in ast.walk(tree) if hasattr(n, "col_offset")}  # a node is converted once
+        if not nodes:
+            return tree
+        numbers = sorted({n.lineno for n in nodes.values()} | {n.end_lineno for n in nodes.values() if n.end_lineno})
+        lines = dict(zip(numbers, self._tokenizer.get_lines(numbers)))
+        for node in nodes.values():
+            line = lines[node.lineno]
+            if not line.isascii():
+                node.col_offset = len(line[: node.col_offset].encode())
+            if node.end_lineno and getattr(node, "end_col_offset", None) is not None and not lines[node.end_lineno].isascii():
+                node.end_col_offset = len(lines[node.end_lineno][: node.end_col_offset].encode())
+        return tree
 
     def _parse(self, rule: str, call_invalid_rules: bool = False) -> ast.AST | Any | None:
         self.call_invalid_rules = call_invalid_rules
